@@ -39,6 +39,9 @@ func Substr[T ~string](str T, offset, length int) T {
 			return Null[T]()
 		}
 		end = newLength
+	} else if length > len(str)-offset {
+		// offset+length may overflow for a length such as math.MaxInt ("up to the end").
+		end = len(str)
 	} else {
 		end = offset + length
 	}
